@@ -343,6 +343,11 @@ func Instantiate(w *World, sim *simrt.Sim, st *core.Stats) *Runtime {
 			id := rt.newToken(Token{Kind: TokSupplied, Label: a.Label, Arg: i, Op: -1})
 			rt.ArgTok[i] = id
 			v := MakeValue(a.Label.Type, id)
+			if a.NilPtr && Types[a.Label.Type].Kind() == reflect.Ptr {
+				// a typed nil pointer is a value like any other to the library; its String
+				// method (see pool.go) does not survive being called on it
+				v = reflect.Zero(Types[a.Label.Type]).Interface()
+			}
 			if a.Kind == ArgNamed {
 				sp := a.Spell
 				if sp == "" {
